@@ -126,15 +126,27 @@ def _build_class(case, gen):
     return e
 
 
-def _produce(case, x_np):
-    """one full encoding with a fresh generator seeded from the case -> bool array (steps, *shape)"""
+def _input(case, x_np):
+    """the caller's intensity tensor; with ``noncontig`` a dense non-contiguous view holding the same values"""
+    x = torch.tensor(x_np, dtype=TD[case["dtype"]])
+    if case.get("noncontig") and x.dim() >= 1:
+        if x.dim() >= 2:
+            x = x.transpose(-1, -2).contiguous().transpose(-1, -2)
+        else:
+            big = torch.zeros(2 * x.shape[0], dtype=x.dtype)
+            big[::2] = x
+            x = big[::2]
+    return x
+
+
+def _produce(case, x):
+    """one full encoding of the caller's tensor ``x`` with a fresh generator seeded from the case -> bool array (steps, *shape)"""
     import inferno.neural.functional as nf
 
     enc, online = case["enc"], bool(case["online"])
     steps, dt, freq = int(case["steps"]), float(case["dt"]), float(case["freq"])
     shape = tuple(case["shape"])
     gen = torch.Generator().manual_seed(int(case["seed"]))
-    x = torch.tensor(x_np, dtype=TD[case["dtype"]])
     m = case.get("m")
     if case["route"] == "class":
         e = _build_class(case, gen)
@@ -183,9 +195,11 @@ def run_encode(case):
     else:
         inten = _intensities(case, n).reshape(shape)
 
-    out, what = _produce(case, inten)
-    out2, _ = _produce(case, inten)
-    check(np.array_equal(out, out2), "reproducible", lambda: f"{what}: two generators seeded {case['seed']} gave different trains",
+    # one tensor object, encoded twice by the caller (as a dataset sample presented for two epochs would be)
+    x = _input(case, inten)
+    out, what = _produce(case, x)
+    out2, _ = _produce(case, x)
+    check(np.array_equal(out, out2), "reproducible", lambda: f"{what}: two generators seeded {case['seed']} gave different trains for the same intensity tensor",
           info={"enc": enc})
 
     flat = out.reshape(steps, n)
@@ -295,6 +309,7 @@ def encode_case(draw, tier="quick"):
         "shape": draw(st.sampled_from([[], [3], [2, 3], [1], [4], [3]])),
         "dtype": draw(st.sampled_from(["float32", "float32", "float64"])),
         "inten": draw(st.lists(_spec, min_size=1, max_size=6)),
+        "noncontig": draw(st.booleans()),
     }
     if draw(st.integers(0, 9)) < 8:
         # construction: make sure a silent and a busy element are both present
